@@ -70,6 +70,42 @@ def chk_int(v, tag_t, enum, trailer):
     return out
 
 
+def _show(v):
+    """ints are reported in hex (no decimal conversion: CPython refuses > 4300 digits by default)."""
+    h = hex(v)
+    return h if len(h) <= 70 else f"{h[:40]}...({v.bit_length()} bits)"
+
+
+def chk_bigint(seed):
+    """An integer of more decimal digits than CPython converts between int and str by default: the codec is arithmetic
+    on octets and must not depend on that limit."""
+    import random as _random
+
+    r = _random.Random(seed)
+    v = r.choice([1, -1]) * r.randrange(1 << 14400, 1 << r.choice([14500, 20000, 40000]))
+    enum = r.random() < 0.3
+    out = []
+    w = A.ASN1Writer()
+    try:
+        (w.write_enumerated if enum else w.write_integer)(v)
+        data = bytes(w.get_data())
+    except Exception as e:
+        return [(f"int-write-exc:big:{type(e).__name__}", f"writing a {v.bit_length()}-bit integer raised {type(e).__name__}: {str(e)[:120]}")]
+    exp = _tlv(0, False, 10 if enum else 2, ber.int_content(v))
+    if data != exp:
+        out.append(("int-write-octets:big", f"{v.bit_length()}-bit integer: wrote {len(data)} octets starting {data[:12].hex()}, expected {len(exp)} starting {exp[:12].hex()}"))
+    try:
+        rd = A.ASN1Reader(exp + b"\x05\x00")
+        got = rd.read_enumerated(int) if enum else rd.read_integer()
+        if got != v:
+            out.append(("int-read-value:big", f"{v.bit_length()}-bit integer read back as {_show(got)}"))
+        if bytes(rd.get_remaining_data()) != b"\x05\x00":
+            out.append(("int-read-consumed:big", "wrong consumption"))
+    except Exception as e:
+        out.append((f"int-read-exc:big:{type(e).__name__}", f"reading a {v.bit_length()}-bit integer raised {type(e).__name__}: {str(e)[:120]}"))
+    return out
+
+
 def chk_int_content(content, enum, trailer):
     out = []
     exp = int.from_bytes(content, "big", signed=True)
@@ -106,6 +142,60 @@ def chk_writable_input(v, kind):
         out.append(("reader-modified-callers-buffer", f"reading INTEGER {v} from a {'bytearray' if kind == 0 else 'memoryview'} rewrote the input to {bytes(buf).hex()}"))
     if not (a == b == c == v) or rest != b"z":
         out.append(("re-read-differs", f"INTEGER {v}: successive reads of the same buffer gave {a}, {b}, {c}"))
+    return out
+
+
+VIEW_FORMATS = ["bytes", "bytearray", "view-B", "view-b", "view-c", "array-b", "slice-of-larger"]
+
+
+def _as_input(data: bytes, fmt: str):
+    import array
+
+    if fmt == "bytes":
+        return data
+    if fmt == "bytearray":
+        return bytearray(data)
+    if fmt == "view-B":
+        return memoryview(data)
+    if fmt == "view-b":
+        return memoryview(data).cast("b")  # signed char items: indexing yields -128..127
+    if fmt == "view-c":
+        return memoryview(data).cast("c")  # char items: indexing yields length-1 bytes
+    if fmt == "array-b":
+        return memoryview(array.array("b", [x - 256 if x > 127 else x for x in data]))
+    return memoryview(b"\x30\x7f" + data + b"\xff\xff")[2 : 2 + len(data)]
+
+
+def chk_view_formats(r):
+    """The same octets read through every kind of buffer a caller may hold (bytes, bytearray, memoryviews of unsigned,
+    signed and char items, a slice of a larger buffer) denote the same values."""
+    out = []
+    v = r.choice([1, -1]) * r.randrange(1 << r.choice([7, 8, 15, 16, 31, 64]), 1 << 70)
+    oct_ = r.randbytes(r.choice([0, 5, 127, 128, 129, 200, 255, 256, 300]))
+    num = r.choice([5, 30, 31, 127, 128, 200, 255, 16384])
+    hi = r.randbytes(r.choice([1, 128, 130, 255]))
+    bo = r.choice([0x01, 0x7F, 0x80, 0xFF])
+    data = (_tlv(0, False, 2, ber.int_content(v)) + _tlv(0, False, 4, oct_) + _tlv(2, False, num, hi) + _tlv(0, False, 1, bytes([bo]))
+            + _tlv(0, True, 16, _tlv(0, False, 10, ber.int_content(-v)) + _tlv(0, False, 4, oct_)))
+    want = (v, oct_, (2, num, False, len(hi)), hi, True, -v, oct_)
+    for fmt in VIEW_FORMATS:
+        try:
+            rd = A.ASN1Reader(_as_input(data, fmt))
+            a = rd.read_integer()
+            b = rd.read_octet_string()
+            h = rd.peek_header()
+            c = rd.read_octet_string(tag=h.tag)
+            d = rd.read_boolean()
+            sq = rd.read_sequence()
+            e = sq.read_enumerated(int)
+            f = sq.read_octet_string()
+            got = (a, bytes(b), (int(h.tag.tag_class), h.tag.tag_number, h.tag.is_constructed, h.length), bytes(c), d, e, bytes(f))
+            rest = bytes(rd.get_remaining_data())
+        except Exception as ex:
+            out.append((f"view-format-exc:{fmt}:{type(ex).__name__}", f"reading well-formed elements from a {fmt} input raised {type(ex).__name__}: {ex}"))
+            continue
+        if got != want or rest != b"":
+            out.append((f"view-format-differs:{fmt}", f"the same octets read from a {fmt} input gave {str(got)[:160]}, expected {str(want)[:160]}"))
     return out
 
 
@@ -534,6 +624,12 @@ def run_case(kind, args):
         import random as _random
 
         return chk_truncated_with_header(_random.Random(args[0]))
+    if kind == "bigint":
+        return chk_bigint(args[0])
+    if kind == "viewfmt":
+        import random as _random
+
+        return chk_view_formats(_random.Random(args[0]))
     if kind == "readerops":
         import random as _random
 
@@ -591,6 +687,8 @@ def run_shard(ctx: Ctx, acc: Acc):
             v = gv.g_int(r)
         else:
             v = r.randrange(-(1 << r.choice([16, 64, 512, 2048])), 1 << r.choice([16, 64, 512, 2048]))
+        if i % 500 == 3:  # more decimal digits than CPython converts between int and str by default (4300)
+            do("bigint", (r.randrange(1 << 60),), True, "int-beyond-4300-digits")
         tag = None
         if r.random() < 0.3:
             tag = (r.choice([1, 2, 3]), r.choice([0, 2, 10, 30, 31, 128, 16384]), r.random() < 0.2)
@@ -620,6 +718,8 @@ def run_shard(ctx: Ctx, acc: Acc):
         acc.count("octets")
         do("writable", (gv.g_int(r), i % 2), True, "writable-input")
         do("truncated", (r.randrange(1 << 60),), True, "truncated-with-header")
+        if i % 4 == 1:
+            do("viewfmt", (r.randrange(1 << 60),), True, "input-buffer-kinds")
         do("hdrtrunc", (r.randrange(1 << 60),), True, "header-truncations")
         do("winter", (r.randrange(1 << 60),), True, "writer-interleavings")
         do("failedread", (r.randrange(1 << 60),), True, "failed-read-keeps-position")
